@@ -37,7 +37,8 @@ def stubbed_download(tier):
     real = rd.download_license
     cwd = os.getcwd()
     header = "# SPDX-FileCopyrightText: Jane\n# SPDX-License-Identifier: {}\n"
-    batches = [["MIT"], ["MIT", "0BSD"], ["MIT+", "0BSD", "ISC"], ["0BSD", "MIT", "ISC", "Zlib"]]
+    # (GPL-3.0 and GPL-2.0+ are deprecated SPDX identifiers: still on the list, still downloadable)
+    batches = [["MIT"], ["MIT", "0BSD"], ["MIT+", "0BSD", "ISC"], ["0BSD", "MIT", "ISC", "Zlib"], ["GPL-3.0", "MIT"], ["GPL-2.0+"]]
     try:
         for batch, fail_at, existing in itertools.product(batches, [None, 0, 1, 2], [None, "MIT", "0BSD"]):
             if fail_at is not None and fail_at >= len(batch):
@@ -91,6 +92,10 @@ def stubbed_download(tier):
                     for ident in failed_ids:
                         if os.path.join("LICENSES", ident + ".txt") in new:
                             failures.append(dict(case, problem=f"file left behind for failed {ident}"))
+                    if r.exit_code == 0:
+                        for w in wanted:
+                            if w != existing and os.path.join("LICENSES", w + ".txt") not in after:
+                                failures.append(dict(case, problem=f"exit status 0 but the requested licence {w} is not in LICENSES/"))
                     any_failure = bool(failed_ids) or bool(refused)
                     if (r.exit_code != 0) != any_failure:
                         failures.append(dict(case, problem=f"exit status {r.exit_code} but failures={failed_ids + refused}"))
